@@ -13,8 +13,10 @@ package sched
 import (
 	"fmt"
 	"hash/fnv"
+	"os"
 	"sync"
 	"syscall"
+	"time"
 )
 
 // Task states.
@@ -94,6 +96,9 @@ type Sched struct {
 	// the OS threads they occupy in the raw read) go away. From then on every scheduler call is a no-op.
 	over bool
 }
+
+// stallAfter is the wall-clock guard of one scheduled run (runs take milliseconds).
+const stallAfter = 180 * time.Second
 
 var active *Sched
 
@@ -503,6 +508,13 @@ func (t *Task) IsDone() bool { return t.state == done }
 // Run starts the schedule and returns when every non-daemon task has finished,
 // or on deadlock / step cap. It must be called from a goroutine that is not a task.
 func (s *Sched) Run() {
+	// wall-clock guard: a task that blocks outside the seams of the scheduler (a channel operation, a real
+	// sleep) keeps the token for ever. That is trouble of the machinery, never a verdict: leave loudly.
+	guard := time.AfterFunc(stallAfter, func() {
+		fmt.Fprintf(os.Stderr, "VERIF-STALL: a scheduled run did not finish within %v of wall-clock time (a task blocked outside the scheduler's seams?)\n", stallAfter)
+		os.Exit(97)
+	})
+	defer guard.Stop()
 	s.start()
 	rawRead(s.mainR)
 	if !s.aborted() {
